@@ -326,6 +326,28 @@ theorem C04_overloaded_attr_iff (path : String) (s : Schema) (fuel : Nat) (e : E
     hasError (overloadDiags path s fuel e) = false ↔ NoOverload s fuel e :=
   overload_noError_iff path s fuel e
 
+/-- **overloaded attribute, stated without the look-up function**: `ENTITYresolve_expressions` reports OVERLOADED_ATTR for `e` ⇔ some new
+    (not redeclared) attribute of `e` has a second declaration in a direct supertype or in an entity reachable from one through
+    `SUBTYPE OF` — two distinct reachable declarations of one name.  (The look-up is the marked search the code uses since C06-17; it
+    returns on cyclic supertypes too.) -/
+theorem C04_overloaded_attr_reach_iff (path : String) (s : Schema) (e : Entity) :
+    hasError (overloadDiags path s (s.decls.length + 1) e) = true ↔
+      ∃ a ∈ e.attrs, a.redeclOf = none ∧ ∃ sup ∈ supersOf s e, ∃ x, ReachRefl (superGraph s) sup x ∧ ownsAttr s a.name x = true := by
+  have h := (overload_noError_iff path s (s.decls.length + 1) e).trans (noOverload_iff_reach s e)
+  constructor
+  · intro he
+    apply Classical.byContradiction
+    intro hne
+    have : hasError (overloadDiags path s (s.decls.length + 1) e) = false := by
+      apply h.mpr
+      intro a ha hr sup hs hx
+      exact hne ⟨a, ha, hr, sup, hs, hx⟩
+    rw [this] at he; cases he
+  · rintro ⟨a, ha, hr, sup, hs, hx⟩
+    cases hh : hasError (overloadDiags path s (s.decls.length + 1) e) with
+    | true => rfl
+    | false => exact absurd hx (h.mp hh a ha hr sup hs)
+
 /-- **bad INVERSE**: reported exactly when the inverted type is no entity, or the entity and its supertypes do not declare the
     attribute (an attribute of a subtype or sibling does not count) -/
 theorem C04_bad_inverse_iff (path : String) (s : Schema) (a : Attr) (hasAttr : String → String → Bool) :
